@@ -47,7 +47,7 @@ def bare_interpreters():
 def shards(tier, seed):
     out = []
     for py in bare_interpreters():
-        for path in ("popen", "via", "socket", "via_nopython", "ssh", "vagrant_ssh"):
+        for path in ("popen", "via", "socket", "via_nopython", "ssh", "vagrant_ssh", "popen_stdio_encoding"):
             out.append({"kind": "dynamic", "python": py, "path": path,
                         "n": 8 if tier == "quick" else (1500 if path in ("popen", "via", "socket") else 200)})
     for py in bare_interpreters():
@@ -127,7 +127,7 @@ def run_dynamic(spec):
     for model in ("thread", "main_thread_only"):
         label = f"{label0}:{model}"
         group = execnet.Group()
-        saved_env = {k: os.environ.get(k) for k in ("PYTHONPATH", "EXECNET_DEBUG", "PATH")}
+        saved_env = {k: os.environ.get(k) for k in ("PYTHONPATH", "EXECNET_DEBUG", "PATH", "PYTHONIOENCODING")}
         # EXECNET_DEBUG selects other branches of the shipped source: they must be self-contained too
         dbg = {"thread": rng.choice((None, "1", "2")), "main_thread_only": rng.choice((None, "1"))}[model]
         try:
@@ -146,6 +146,17 @@ def run_dynamic(spec):
             elif spec["path"] == "popen":
                 gw = group.makegateway(bare + f"//execmodel={model}")
                 probe_on = [gw]
+            elif spec["path"] == "popen_stdio_encoding":
+                # the other side's standard streams are not UTF-8 (legacy locale, Windows pipes, PYTHONIOENCODING): the
+                # bootstrap line and the shipped source travel through them as text.  (-S without -E so that the
+                # variable is honoured; PYTHONPATH is removed instead)
+                os.environ.pop("PYTHONPATH", None)
+                enc = rng.choice(("ascii", "latin-1", "cp1252", "ascii:backslashreplace"))
+                os.environ["PYTHONIOENCODING"] = enc
+                label += f":stdio={enc}"
+                gw = group.makegateway(f"popen//python={py} -S//execmodel={model}")
+                probe_on = [gw]
+                res.count("bare_workers_with_non_utf8_stdio")
             elif spec["path"] in ("ssh", "vagrant_ssh"):
                 # the login shim: the remote command line runs in a fresh shell with an empty environment
                 os.environ["PATH"] = os.path.join(core.VERIF, "vlib", "shims") + os.pathsep + os.environ.get("PATH", "")
